@@ -7,7 +7,7 @@ from spsdk.exceptions import SPSDKError
 from spsdk.image.bee import BeeFacRegion, BeeProtectRegionBlock
 from spsdk.utils.crypto.otfad import KeyBlob
 
-inline("spsdk.image.bee:BeeBaseClass.update", "spsdk.image.bee:BeeFacRegion.update", "spsdk.image.bee:BeeProtectRegionBlock.fac_count",
+inline("spsdk.utils.misc:split_data", "spsdk.image.bee:BeeBaseClass.update", "spsdk.image.bee:BeeFacRegion.update", "spsdk.image.bee:BeeProtectRegionBlock.fac_count",
        "spsdk.image.bee:BeeFacRegion.end_addr")
 
 
@@ -60,3 +60,44 @@ def _(self: PRDB(0), start_addr: int) -> bool:
     returns(self._start_addr <= start_addr and start_addr < self._end_addr)
     pure()
     sample_with(lambda rnd: {"self": _mk_prdb(rnd), "start_addr": rnd.randrange(0, 1 << 31)})
+
+
+# ----------------------------------------------------------------------------------------------------------------------
+# IEE AES-CTR with address binding: the keystream block of every 16 bytes depends on (key, counter word + absolute address >> 4) only,
+# the 32-bit counter word wraps and never carries into the 96 nonce bits (hardware model: one AES block per 16 bytes of address space)
+# ----------------------------------------------------------------------------------------------------------------------
+from spsdk.utils.crypto.iee import IeeKeyBlob
+from specs.crypto import AES_CTR
+
+
+def rev4(b):
+    """Byte order reversed inside every 32-bit word (what reverse_bytes_in_longs does), as a closed term for the specification."""
+    return bytes([b[4 * (i // 4) + 3 - i % 4] for i in range(len(b))])
+
+
+def iee_ctr_block(blob, address, block16):
+    nonce = rev4(blob.key2)
+    low = int.from_bytes(nonce[12:16], "big")
+    return AES_CTR(rev4(blob.key1), nonce[:12] + ((low + address // 16) % 2 ** 32).to_bytes(4, "big"), block16)
+
+
+def _mk_iee(rnd):
+    from spsdk.utils.crypto.iee import IeeKeyBlobAttribute, IeeKeyBlobKeyAttributes, IeeKeyBlobLockAttributes, IeeKeyBlobModeAttributes
+
+    big = rnd.random() < 0.3
+    attrs = IeeKeyBlobAttribute(IeeKeyBlobLockAttributes.UNLOCK, IeeKeyBlobKeyAttributes.CTR256XTS512 if big else IeeKeyBlobKeyAttributes.CTR128XTS256,
+                                IeeKeyBlobModeAttributes.AesCTRWAddress)
+    key2 = bytes(rnd.getrandbits(8) for _ in range(12)) + rnd.choice([b"\x80\xfe\xff\xfc", b"\xff\xff\xff\xff", bytes(4), bytes(rnd.getrandbits(8) for _ in range(4))])
+    return IeeKeyBlob(attrs, 0x30000000, 0x30100000, key1=bytes(rnd.getrandbits(8) for _ in range(32 if big else 16)), key2=key2)
+
+
+@contract("spsdk.utils.crypto.iee:IeeKeyBlob.encrypt_image_ctr")
+def _(self: Obj(IeeKeyBlob, key1=Union[Bytes(16), Bytes(32)], key2=Bytes(16)), base_address: Range(0, 0xFFFFFFF0),
+      data: Union[Bytes(16), Bytes(32), Bytes(48)]) -> bytes:
+    requires(base_address % 16 == 0)
+    ensures(len(result) == len(data), label="same-length")
+    ensures(all(result[16 * j: 16 * j + 16] == iee_ctr_block(self, base_address + 16 * j, data[16 * j: 16 * j + 16]) for j in range(len(data) // 16)),
+            label="every-16-bytes-use-the-counter-of-their-own-address-with-32-bit-wrap")
+    pure()
+    sample_with(lambda rnd: {"self": _mk_iee(rnd), "base_address": rnd.choice([0x30000000, 0x30001000, 0x30001800, 0x300017F0, 0x3000FFF0]),
+                             "data": bytes(rnd.getrandbits(8) for _ in range(rnd.choice([16, 32, 48])))})
